@@ -51,9 +51,35 @@ def stage(kind, text):
     raise ValueError(kind)
 
 
-def gen_case(rng, strings, idx):
+class _Fixed:
+    """choices of a directed case: literal arguments, no function, one stage; statement form or captured"""
+    def __init__(self, captured):
+        self.captured = captured
+
+    def random(self):
+        return 0.0 if self.captured else 0.99        # < 0.6: captured; everything else: literal argument, top level
+
+    def choice(self, xs):
+        return xs[0]
+
+    def randrange(self, a, b=None):
+        return a
+
+
+def directed_cases():
+    """argument lists whose members are EMPTY literals, option look-alikes and words with blanks, as literals (regression after
+    round 6: C18-1 - an empty literal argument vanishes - was caught only when the random generator happened to emit one)"""
+    lists = [[""], ["", "a"], ["a", ""], ["", ""], ["a", "", "b"], ["", "", "x", ""], ["-n"], ["--", ""], [" "], ["a b", ""], ["", "*"], ["$x", ""]]
+    out = []
+    for i, args in enumerate(lists):
+        for captured in (False, True):
+            out.append(gen_case(_Fixed(captured), None, "d%d%s" % (i, "c" if captured else "s"), fixed=args))
+    return out
+
+
+def gen_case(rng, strings, idx, fixed=None):
     n = rng.choice([0, 1, 1, 2, 3, 5])
-    args = [rng.choice(strings) for _ in range(n)]
+    args = list(fixed) if fixed is not None else [rng.choice(strings) for _ in range(n)]
     statuses = [rng.choice([0, 0, 0, 1, 2, 7, 42, 255]) for _ in range(3)]
     files = {}
     lines = []
@@ -101,7 +127,7 @@ def gen_case(rng, strings, idx):
     src = "\n".join(lines) + "\n"
     # outputs with more than one trailing line feed are not generated (bash strips them all; the property says "its trailing newline")
     multi_nl = captured and text.endswith("\n\n")
-    return pipeline.Case("a%d" % idx, {"main.tsh": src.encode()}, meta=dict(src=src, expected_out=out, extra_files=files, args=args, skip=multi_nl,
+    return pipeline.Case("a%s" % idx, {"main.tsh": src.encode()}, meta=dict(src=src, expected_out=out, extra_files=files, args=args, skip=multi_nl,
                                                                                 expected_err=sorted("E:" + nm for nm in names)))
 
 
@@ -120,7 +146,7 @@ def run(res, b, tier, seed):
         res.violation("build", dict(harness=b.harness_error, model=b.model_error), no_input=True)
         return
     strings = [s for _, s in gen_strings.all_strings(True)]
-    cases = [gen_case(rng, strings, i) for i in range(400 if tier == "quick" else 6000)]
+    cases = directed_cases() + [gen_case(rng, strings, i) for i in range(400 if tier == "quick" else 6000)]
     cases = [c for c in cases if not c.meta["skip"]]
     pipeline.run_pipe(b, cases, "as")
     pipeline.model_full(b, cases)
